@@ -8,6 +8,7 @@ Enumeration is a depth-first walk that undoes a step by restoring the object's _
 failure found that way is re-executed from scratch (fresh sandbox, fresh object) before it is reported.
 """
 import builtins
+import copy
 import errno
 import os
 
@@ -81,6 +82,79 @@ def _contains_bytes(v, depth=0):
     return False
 
 
+def _forms(key):
+    """the spellings of a key that count as key material"""
+    import base64
+    return {"raw": key, "hex": key.hex().encode(), "HEX": key.hex().upper().encode(),
+            "base64": base64.b64encode(key).rstrip(b"="), "urlsafe-base64": base64.urlsafe_b64encode(key).rstrip(b"=")}
+
+
+def find_key_material(root, keys, maxdepth=6):
+    """walk every object reachable from `root` (instance __dict__ / __slots__, dict keys and values, list / tuple / set
+    items, bound-method __self__, functools.partial parts, closure cells and defaults of functions; NOT modules,
+    classes, function globals) and return [(where, form)] for each bytes / bytearray / memoryview / str / sequence of
+    small ints that equals or contains one of `keys` (raw, hex or base64)"""
+    import functools
+    import types
+    needles = [(form, n) for k in keys for form, n in _forms(k).items()]
+    hits, seen = [], set()
+
+    def scan(data, where):
+        for form, n in needles:
+            if n and n in data:
+                hits.append((where, form))
+                return
+
+    def visit(o, where, d):
+        if isinstance(o, (bytes, bytearray)):
+            return scan(bytes(o), where)
+        if isinstance(o, memoryview):
+            return scan(o.tobytes(), where)
+        if isinstance(o, str):
+            return scan(o.encode("latin-1", "backslashreplace"), where)
+        if o is None or isinstance(o, (bool, int, float, complex, types.ModuleType, type)):
+            return None
+        if id(o) in seen or d > maxdepth:
+            return None
+        seen.add(id(o))
+        if isinstance(o, dict):
+            for k, v in list(o.items()):
+                visit(k, where + "{key}", d + 1)
+                visit(v, "%s[%s]" % (where, k if isinstance(k, (str, int)) else type(k).__name__), d + 1)
+        elif isinstance(o, (list, tuple, set, frozenset)) or type(o).__name__ in ("deque", "array"):
+            items = list(o)
+            if items and all(isinstance(x, int) and not isinstance(x, bool) and 0 <= x < 256 for x in items):
+                scan(bytes(items), where + "<ints>")
+            for x in items:
+                visit(x, where + "[]", d + 1)
+        elif isinstance(o, types.MethodType):
+            visit(o.__self__, where + ".__self__", d + 1)
+            visit(o.__func__, where + ".__func__", d + 1)
+        elif isinstance(o, types.FunctionType):
+            for c in o.__closure__ or ():
+                try:
+                    visit(c.cell_contents, where + "<closure>", d + 1)
+                except ValueError:
+                    pass
+            visit(o.__defaults__, where + "<defaults>", d + 1)
+            visit(o.__kwdefaults__, where + "<kwdefaults>", d + 1)
+        elif isinstance(o, functools.partial):
+            visit(o.func, where + ".func", d + 1)
+            visit(o.args, where + ".args", d + 1)
+            visit(o.keywords, where + ".keywords", d + 1)
+        else:
+            attrs = dict(getattr(o, "__dict__", None) or {})
+            for cls in type(o).__mro__:
+                for name in getattr(cls, "__slots__", ()) or ():
+                    if isinstance(name, str) and hasattr(o, name):
+                        attrs.setdefault(name, getattr(o, name))
+            for name, v in attrs.items():
+                visit(v, "%s.%s" % (where, name) if where else name, d + 1)
+
+    visit(root, "", 0)
+    return hits
+
+
 class World:
     """the real object + real file, and the reference model beside them"""
 
@@ -102,6 +176,7 @@ class World:
         self.used = False          # object has been opened (successfully or not) before
         self.failed = False        # object has had a failed open
         self.made = []             # (key, method, ciphertext, plaintext) produced by the library so far
+        self.created = []          # keys the library generated along this history
         self.set_disk(kind)
 
     def content_of(self, kind):
@@ -147,15 +222,20 @@ class World:
             return None
 
     def save(self):
-        return (self.obj, dict(self.obj.__dict__), self.depth, self.skey, self.used, self.failed, len(self.made),
-                self.kind, self.ro, self.disk)
+        try:        # deep: a (mutated) implementation may keep mutable state, e.g. a provider cache, in the instance
+            d = copy.deepcopy(self.obj.__dict__)
+        except Exception:  # noqa: BLE001 - undeepcopyable state: candidates are re-run from scratch anyway
+            d = dict(self.obj.__dict__)
+        return (self.obj, d, self.depth, self.skey, self.used, self.failed, len(self.made),
+                self.kind, self.ro, self.disk, len(self.created))
 
     def restore(self, st):
-        obj, d, self.depth, self.skey, self.used, self.failed, n, kind, ro, disk = st
+        obj, d, self.depth, self.skey, self.used, self.failed, n, kind, ro, disk, nc = st
         self.obj = obj
         obj.__dict__.clear()
         obj.__dict__.update(d)
         del self.made[n:]
+        del self.created[nc:]
         if disk != self.disk:
             self.write_disk(disk)
         self.kind, self.ro, self.disk = kind, ro, disk
@@ -228,6 +308,7 @@ class World:
                     self.depth = 1
                 else:
                     self.depth, self.skey, self.disk, self.kind = 1, now, now, "created"
+                    self.created.append(now)
                     if sum(1 for m in self.opens if any(c in m for c in "wax+")) != 1:
                         bad(O_CREATED, "key file written %r times during creation" % self.opens, "|writes")
             elif before is None:
@@ -253,8 +334,12 @@ class World:
             if exc is not None and self.depth == 0 and getattr(self.obj, "_KeyFile__key", None):
                 bad(O_FAILED_STATE, "after a failed open the object keeps %d key bytes"
                     % len(self.obj._KeyFile__key))
-        elif op == "exit":
-            res = self.obj.__exit__(None, None, None)
+        elif op in ("exit", "exit-exc"):
+            if op == "exit":
+                res = self.obj.__exit__(None, None, None)
+            else:                       # the with-block is left by an exception
+                err = ValueError("raised inside the key context")
+                res = self.obj.__exit__(ValueError, err, None)
             self.depth -= 1
             if res:
                 bad(O_EXIT, "__exit__ returned a true value (would swallow exceptions)", "|result")
@@ -295,6 +380,7 @@ class World:
             cands = [("xor", _xor(PROBE, key), PROBE, "indep")]
             if _aes() is not None:
                 cands.append(("aes", _aes_enc(key, bytes(range(16)), PROBE), PROBE, "indep"))
+                cands.append(("best", _aes_enc(key, bytes(range(16, 32)), PROBE), PROBE, "indep"))
             cands += [(m, c, p, "earlier") for k, m, c, p in self.made if k == key][-2:]
             for method, ct, pt, src in cands:
                 try:
@@ -334,8 +420,14 @@ class World:
         if self.depth == 0:
             held = [k for k, v in vars(self.obj).items() if _contains_bytes(v)]
             if held:
-                bad(O_EXIT if op == "exit" else O_NOKEY,
+                bad(O_EXIT if op.startswith("exit") else O_NOKEY,
                     "no context open but the object holds key material in %s" % sorted(held))
+            # "never retained" on the whole object graph: no key this object has loaded (nor the malformed content
+            # it has refused) may be reachable from it once no context is open
+            for where, form in find_key_material(self.obj, [self.k1[:31], self.k2] + self.created):
+                fails.append((O_EXIT, "key-reachable-after-close:" + where,
+                              "after %s (no context open) key material (%s) is reachable from the KeyFile at %s"
+                              % (op, form, where)))
             try:
                 self.obj.encrypt(PROBE, method="xor")
                 bad(O_CLOSED_ENC, "encrypt succeeded although no context is open", "|probe")
@@ -355,7 +447,7 @@ class World:
         elif self.skey is not None:
             obl = {"enter": O_NESTED if self.depth > 1 else (O_CREATED if self.kind == "created" and
                                                                opens_in_step else O_VERBATIM),
-                   "exit": O_EXIT_KEEP}.get(op, O_ENC_KEY)
+                   "exit": O_EXIT_KEEP, "exit-exc": O_EXIT_KEEP}.get(op, O_ENC_KEY)
             try:
                 ct = self.obj.encrypt(PROBE, method="xor").ciphertext
             except Exception as e:
@@ -374,7 +466,7 @@ def _show(b):
 
 def _allowed(world, prev, first, last=False):
     if world.depth > 0:
-        ops = ["enter", "exit", "enc", "dec"]
+        ops = ["enter", "exit", "exit-exc", "enc", "dec"]
     else:
         ops = ["enter", "enc", "dec", "new"]
         # an external change as the final step of a maximal sequence is never observed by the library: skipped
@@ -406,7 +498,7 @@ def run_sequence(tmp, init, ops, k1, k2):
     with _Patched(w):
         w.reset(init)
         for i, op in enumerate(ops):
-            if op in ("exit",) and w.depth == 0:
+            if op in ("exit", "exit-exc") and w.depth == 0:
                 raise ValueError("sequence is not properly nested at step %d" % i)
             fs = w.step(op)
             out += [(i, o, k, t) for o, k, t in fs]
@@ -417,14 +509,16 @@ def run_sequence(tmp, init, ops, k1, k2):
 
 def rac(tier: str, seed: int) -> dict:
     maxlen = 5 if tier == "quick" else 6
-    rec = Recorder(PID, rule="every properly nested sequence over {enter, exit, enc, dec, new KeyFile(path), "
+    rec = Recorder(PID, rule="every properly nested sequence over {enter, exit, exit by exception, enc, dec, new KeyFile(path), "
                    "ext:<file state>} from every initial file state is one case (key = initial state + op tuple); "
                    "non-trivial when it contains a library call (enter/exit/enc/dec); pruned only: ext directly "
                    "after ext / as first op / to the current state, repeated enc,enc / dec,dec / new,new, "
                    "ext and new inside an open context, ext as the last step of a maximal-length sequence (unobservable)",
                    bound="7 file states (absent, valid 32B, other valid key, empty, 31B, 33B, absent in unwritable "
                    "dir [injected EACCES on write-open, process is root]) x sequences of length <= %d; 3 methods; "
-                   "clauses evaluated after every step, plus XOR probe of the key in use" % maxlen,
+                   "clauses evaluated after every step, plus XOR probe of the key in use; whenever no context is open "
+                   "the object graph of the KeyFile (depth <= 6) is searched for every key it has loaded (raw / hex / "
+                   "base64 / int sequence)" % maxlen,
                    tier=tier, seed=seed)
     k1 = bytes(rec.rng.getrandbits(8) for _ in range(32))
     k2 = bytes(rec.rng.getrandbits(8) for _ in range(32))
@@ -446,7 +540,7 @@ def rac(tier: str, seed: int) -> dict:
                     st = w.save()
                     fs = w.step(op)
                     seq = ops + (op,)
-                    rec.case(key=(init, seq), nontrivial=any(o in ("enter", "exit", "enc", "dec") for o in seq),
+                    rec.case(key=(init, seq), nontrivial=any(o in ("enter", "exit", "exit-exc", "enc", "dec") for o in seq),
                              sample={"init": init, "ops": list(seq)} if len(seq) == maxlen and
                              seq.count("enter") >= 2 and rec.evaluations % 997 == 0 else None)
                     for obl, wk, what in fs:
